@@ -882,6 +882,29 @@ pub fn c14_random(seed: u64, thorough: bool) -> Scenario {
     use crate::net::Break;
     use crate::rsender::RsOp;
     let mut r = Rng::new(seed);
+    if r.chance(0.25) {
+        // Steady sender through an outage: the peer is unreachable for `down`, new messages keep
+        // arriving every 20-150 ms (closer together than the shortest back-off delay) until well
+        // after the moment the doubling back-off must have reconnected, and the run ends 100 ms
+        // after the last hand-over: every kept message must have been delivered by then.
+        let t0 = if r.chance(0.5) { 0 } else { r.range(1_000, 60_000) };
+        let down = r.log_range(100_000, 3_000_000);
+        let gap = r.range(20_000, 150_000);
+        let total = t0 + 2 * down + 1_400_000;
+        let mut ops = Vec::new();
+        let mut t = 0u64;
+        let mut id = 0u32;
+        while t < total {
+            ops.push(RsOp::Send { id });
+            ops.push(RsOp::Wait { us: gap });
+            id += 1;
+            t += gap;
+        }
+        ops.push(RsOp::Send { id });
+        let mut sc = rs_scenario("C14", seed, ops, 100_000);
+        sc.net.rules.push(Rule { t0_us: t0, t1_us: t0 + down, src: 1, dst: 2, bidir: true, svc_mask: 1, kind: RuleKind::Block, reply_only: false, label: "peer-down".into() });
+        return sc;
+    }
     let m = r.range(1, if thorough { 50 } else { 20 }) as u32;
     let mut ops = Vec::new();
     let mut live: Vec<u32> = Vec::new();
